@@ -665,6 +665,9 @@ func parseAndVerifyWireAccessToken(v wireVerifyParams) (*wireAccessToken, *wireD
 	}
 	jwtKeyID := jwt.Headers[0].KeyID
 	if jwtKeyID == "" {
+		if jwt.Headers[0].JSONWebKey == nil {
+			return nil, nil, errors.New("token has neither a key ID nor a key")
+		}
 		if jwtKeyID, err = KeyToID(jwt.Headers[0].JSONWebKey); err != nil {
 			return nil, nil, fmt.Errorf("failed extracting token key ID: %w", err)
 		}
